@@ -411,7 +411,7 @@ def run(tier, seed):
                 "1-D and batched starts) validated by TraceGibbs.tla; non-trivial = trace with >= 1 Gibbs round")
     quick = tier == "quick"
     # ---- (1a) plain RBM
-    pts = [lattice.random_point(rng, nvmax=3 if quick else 4, nhmax=3 if quick else 4, budget=1700) for _ in range(80 if quick else 1200)]
+    pts = [lattice.random_point(rng, nvmax=3 if quick else 4, nhmax=3 if quick else 4, budget=1700) for _ in range(80 if quick else 800)]
     pf = lattice.PointsFile(pts)
     try:
         res = tlc.run("RBM", constants={"TMax": 1800, "Lanes": 32},
